@@ -37,7 +37,12 @@ func c11Gen(r *driver.Rand, thorough bool) *driver.Plan {
 	p.Fn = r.Intn(60)
 	if stage == "Emit" {
 		p.IntervalMs = driver.Pick(r, 1, 10, 1000, 1+r.Intn(40), 15, 25, 1234)
-		if r.Chance(1, 5) {
+		if r.Chance(1, 30) {
+			p.IntervalMs = 0 // frequency zero (or one nanosecond): no pacing at all
+			if r.Chance(1, 2) {
+				p.SetX("interval_ns", 1)
+			}
+		} else if r.Chance(1, 5) {
 			// frequencies that are not whole milliseconds
 			p.IntervalMs = driver.Pick(r, 0, 1, 2)
 			p.SetX("interval_us", driver.Pick(r, 1, 250, 500, 999))
